@@ -850,6 +850,27 @@ where
         arc_self
     }
 
+    /// Verification hook: like [`start`](Self::start) but runs `batch_processor` as a task on
+    /// the *current* runtime instead of a dedicated OS thread, so a simulated node's IO is
+    /// scheduled (and its timers are virtualised) together with the rest of the node.
+    #[cfg(feature = "verif-hooks")]
+    pub fn start_on_current_runtime(
+        mut self,
+        receiver: mpsc::UnboundedReceiver<IOTask>,
+        log_flush_tx: Option<mpsc::UnboundedSender<crate::InternalEvent>>,
+    ) -> (Arc<Self>, tokio::task::JoinHandle<()>) {
+        self.log_flush_tx = log_flush_tx;
+        let arc_self = Arc::new(self);
+        let weak_self = Arc::downgrade(&arc_self);
+        let idle_flush_interval_ms = arc_self.idle_flush_interval_ms;
+        let handle = tokio::spawn(Self::batch_processor(
+            weak_self,
+            receiver,
+            idle_flush_interval_ms,
+        ));
+        (arc_self, handle)
+    }
+
     /// Notify-driven IO loop.
     ///
     /// Waits on `write_notify.notified()` for new entries in the SkipMap.
